@@ -637,6 +637,43 @@ def worker_eligible(project, w, t):
     return True
 
 
+def usable_free_facilities(project, snap, tr, t, touched):
+    """Facilities that are still FREE after the allocation pass and could have served the facility task t
+    (claimed only for a component that carries this single task and has been lying at the workplace since
+    the update of this step; see DESIGN C06)."""
+    fs = snap.af[t]
+    c = t.target_component
+    if c is None or len(c.targeted_task_list) != 1:
+        return []
+    wp = snap.cplace.get(c)
+    if wp is None:
+        return []
+    if c.parent_component_list:
+        # a nested component may be dragged into a workplace by its parent's move later
+        # in the same allocation pass: claim the pair clause only if it was already there
+        up = tr.last.get("updated")
+        if up is None or up.cplace.get(c) is not wp:
+            return []
+        if id(c) in touched:
+            return []   # moved away and dragged back within this allocation pass
+    if any(workplace_of(project, f) is not wp for f in fs):
+        return []   # site inconsistency is C13's business
+    if not any(x is t for x in wp.targeted_task_list):
+        return []
+    out = []
+    for f in wp.facility_list:
+        if snap.fstate[f] != FSs.FREE or snap.fassigned[f]:
+            continue
+        if skill(f, t.name) <= 0.0:
+            continue
+        if t.fixing_allocating_facility_id_list is not None and f.ID not in t.fixing_allocating_facility_id_list:
+            continue
+        if f.solo_working and fs:
+            continue
+        out.append(f)
+    return out
+
+
 class MonC06(object):
     prop = "C06"
 
@@ -679,33 +716,7 @@ class MonC06(object):
                                "step %d: worker %s stays FREE although task %s (%s) could accept him" % (snap.step, w.ID, t.ID, snap.tstate[t].name),
                                task=t, res=w)
             else:
-                c = t.target_component
-                if c is None or len(c.targeted_task_list) != 1:
-                    continue
-                wp = snap.cplace.get(c)
-                if wp is None:
-                    continue
-                if c.parent_component_list:
-                    # a nested component may be dragged into a workplace by its parent's move later
-                    # in the same allocation pass: claim the pair clause only if it was already there
-                    up = tr.last.get("updated")
-                    if up is None or up.cplace.get(c) is not wp:
-                        continue
-                    if id(c) in self.touched:
-                        continue   # moved away and dragged back within this allocation pass
-                if any(workplace_of(project, f) is not wp for f in fs):
-                    continue   # site inconsistency is C13's business
-                if not any(x is t for x in wp.targeted_task_list):
-                    continue
-                for f in wp.facility_list:
-                    if snap.fstate[f] != FSs.FREE or snap.fassigned[f]:
-                        continue
-                    if skill(f, t.name) <= 0.0:
-                        continue
-                    if t.fixing_allocating_facility_id_list is not None and f.ID not in t.fixing_allocating_facility_id_list:
-                        continue
-                    if f.solo_working and fs:
-                        continue
+                for f in usable_free_facilities(project, snap, tr, t, self.touched):
                     for w in free_workers:
                         tr.counters["C06.facility_pairs_examined"] += 1
                         if not worker_eligible(project, w, t):
